@@ -483,6 +483,7 @@ func checkC05(R *Run) {
 	R.note(fmt.Sprintf("%d registered handlers, %d Authorize call sites on the requester.", len(regs), nGuardSites))
 
 	R.ruleAuthorizeSound()
+	R.ruleExistenceTargetAgree()
 	R.ruleCreateNoOverwrite()
 
 	// login-name-guard: in handleNewConnection
@@ -669,4 +670,65 @@ func possibleInts(fn *ssa.Function, v ssa.Value) []int64 {
 	}
 	sort.Slice(out, func(i, j int) bool { return out[i] < out[j] })
 	return out
+}
+
+// ruleExistenceTargetAgree (C05): in the batch account editor the choice between "modify an existing account" and
+// "create a new one" — and with it the privilege demanded — is made on the account that is then acted upon. Every
+// AccountManager.Get whose result is tested against nil in the handler looks up the same login (symbolically) as the
+// Get whose account is handed to AccountManager.Update; otherwise a rename item (old login in one field, new login
+// in another) is classified by one login and carried out on the other.
+func (R *Run) ruleExistenceTargetAgree() {
+	P := R.P
+	R.rule("existence-target-agree", "in HandleUpdateUser every account lookup whose nil-ness is branched on uses the same login as the lookup whose account is passed to AccountManager.Update (the account whose existence selects the privilege is the account that is modified)")
+	var fn *ssa.Function
+	for _, reg := range R.registeredHandlers() {
+		if reg.Num == 349 {
+			fn = reg.Fn
+		}
+	}
+	if fn == nil {
+		R.bad("existence-target-agree", "transaction 349", "-", "no handler registered for Update User")
+		return
+	}
+	R.analysed(fname(fn))
+	// the lookup that yields the account that is updated
+	var target *ssa.Call
+	for _, ci := range callsIn(fn) {
+		c := ci.Common()
+		if calleeName(c) != "(hotline.AccountManager).Update" || len(c.Args) == 0 {
+			continue
+		}
+		F := &Flow{P: P, Visit: func(x ssa.Value) bool {
+			if g, ok := x.(*ssa.Call); ok && calleeName(&g.Call) == "(hotline.AccountManager).Get" {
+				target = g
+				return false
+			}
+			return true
+		}, Call: func(g *ssa.Call, idx int) ([]ssa.Value, bool) { return nil, true }}
+		F.Back(c.Args[0])
+	}
+	if target == nil {
+		R.und("existence-target-agree", fname(fn), P.pos(fn.Pos()), "no AccountManager.Update of an account obtained from AccountManager.Get found")
+		return
+	}
+	want := stripRecv(P.sym(target.Call.Args[0]))
+	n := 0
+	seen := map[*ssa.Call]bool{}
+	factEdgesImplied(fn, func(e Edge, f Fact) {
+		if f.Kind != "nil" {
+			return
+		}
+		g := callValue(f.V)
+		if g == nil || calleeName(&g.Call) != "(hotline.AccountManager).Get" || seen[g] {
+			return
+		}
+		seen[g] = true
+		n++
+		got := stripRecv(P.sym(g.Call.Args[0]))
+		R.check(got == want, "existence-target-agree", fmt.Sprintf("%s: existence test #%d", fname(fn), n), P.ipos(g),
+			"tests the login whose account is updated", fmt.Sprintf("the handler decides 'existing account or new one' by looking up %s, but the account it modifies is the one looked up by %s: for an item that renames an account the privilege is chosen for one login and the change made to another", got, want))
+	})
+	if n == 0 {
+		R.und("existence-target-agree", fname(fn), P.pos(fn.Pos()), "no branch on the result of AccountManager.Get found")
+	}
 }
